@@ -982,3 +982,48 @@ Proof.
   split; [reflexivity|]. split; [reflexivity|].
   intros t Hneq. apply Nat.eqb_neq in Hneq. rewrite Hneq. split; reflexivity.
 Qed.
+
+(* ------------------------------------------------------------------ cumulant function, error transfer matrix *)
+Theorem validate_cumulant_sound q : valid_analysis (q_a q) -> q_have_spectrum q = true -> q_have_omega q = true ->
+  q_decay_given q = false -> (q_second_order q = true -> a_which (q_a q) = "total"%string /\ (q_shifts_given q = true -> q_shifts_shape_ok q = true)) ->
+  validate_cumulant q = ok.
+Proof.
+  intros Va Hs Ho Hd H2. unfold validate_cumulant.
+  destruct Va as (Hw & Rest). rewrite (proj2 (validate_option_spec _ _) Hw). cbn [bind].
+  rewrite Hs, Ho, Hd. cbn [negb andb orb check bind].
+  assert (V : validate_decay_amplitudes (q_a q) = ok) by (apply validate_decay_sound; split; assumption).
+  rewrite V. cbn [bind].
+  destruct (q_second_order q) eqn:E2; cbn [andb].
+  - destruct (H2 eq_refl) as [Wt Sh]. rewrite Wt. cbn. destruct (q_shifts_given q); cbn; [rewrite (Sh eq_refl)|]; reflexivity.
+  - rewrite andb_false_r. reflexivity.
+Qed.
+Theorem validate_cumulant_complete q : In (a_which (q_a q)) ["total"; "correlations"]%string ->
+  (q_have_spectrum q = false -> q_have_omega q = false -> q_decay_given q = false -> validate_cumulant q = Raise ValueError) /\
+  (q_have_spectrum q = false -> q_have_omega q = false -> q_second_order q = true -> q_shifts_given q = false -> validate_cumulant q = Raise ValueError) /\
+  (q_have_spectrum q = true -> a_which (q_a q) = "correlations"%string -> q_second_order q = true -> validate_cumulant q = Raise ValueError) /\
+  (q_decay_given q = true -> a_which (q_a q) = "total"%string -> q_second_order q = true -> q_shifts_given q = true -> q_shifts_shape_ok q = false ->
+   validate_cumulant q = Raise ValueError).
+Proof.
+  intros Hw. unfold validate_cumulant. rewrite (proj2 (validate_option_spec _ _) Hw). cbn [bind]. repeat split.
+  - intros -> -> ->. reflexivity.
+  - intros -> -> -> ->. cbn. destruct (q_decay_given q); reflexivity.
+  - intros -> -> ->. reflexivity.
+  - intros -> -> -> -> ->. cbn. rewrite !andb_false_r. reflexivity.
+Qed.
+
+Theorem validate_etm_complete t :
+  (t_cum t = KNotArray -> validate_etm t = Raise TypeError) /\
+  (forall s a b, t_cum t = KArray (s ++ [a; b]) -> a <> b -> validate_etm t = Raise ValueError) /\
+  (forall a, t_cum t = KArray [a] -> validate_etm t = Raise ValueError) /\
+  (t_cum t = KNone -> t_have_pulse t && q_have_spectrum (t_q t) && q_have_omega (t_q t) = false -> validate_etm t = Raise ValueError) /\
+  (forall s a, t_cum t = KArray (s ++ [a; a]) -> validate_etm t = ok).
+Proof.
+  unfold validate_etm. repeat split.
+  - intros ->. reflexivity.
+  - intros s a b -> Hab. rewrite rev_app_distr. cbn [rev app firstn]. unfold check, square.
+    replace (b =? a) with false by (symmetry; apply Nat.eqb_neq; congruence). rewrite andb_false_r. reflexivity.
+  - intros a ->. reflexivity.
+  - intros -> ->. reflexivity.
+  - intros s a ->. rewrite rev_app_distr, app_length. cbn [rev app firstn length]. unfold check, square. rewrite Nat.eqb_refl.
+    replace (2 <=? length s + 2) with true by (symmetry; apply Nat.leb_le; lia). reflexivity.
+Qed.
